@@ -99,6 +99,24 @@ def leaf_expansions(g):
     return out
 
 
+# canonical ids for terminal texts that harness oracles need to recognise (registers first)
+VOCAB = ['al', 'ah', 'bl', 'bh', 'cl', 'ch', 'dl', 'dh',
+         'ax', 'bx', 'cx', 'dx', 'sp', 'bp', 'si', 'di', 'es', 'cs', 'ss', 'ds',
+         'add', 'adc', 'sub', 'sbb', 'cmp', 'and', 'or', 'xor', 'test',
+         'sal', 'shl', 'shr', 'sar', 'rol', 'ror', 'rcl', 'rcr',
+         'dec', 'inc', 'neg', 'mul', 'imul', 'div', 'idiv',
+         'jmp', 'ja', 'jae', 'jb', 'jbe', 'jc', 'je', 'jg', 'jge', 'jl', 'jle', 'jnc', 'jne', 'jno', 'jnp',
+         'jns', 'jo', 'jp', 'js', 'jcxz', 'loop', 'loope', 'loopne',
+         'aaa', 'aad', 'aam', 'aas', 'daa', 'das', 'cbw', 'cwd',
+         'lahf', 'sahf', 'pushf', 'popf', 'xlat',
+         'stc', 'clc', 'cmc', 'std', 'cld', 'sti', 'cli', 'hlt',
+         'movs', 'lods', 'stos', 'cmps', 'scas', 'rep', 'repz', 'repnz', 'byte', 'word']
+
+
+def vocab_consts():
+    return ''.join('pub const ID_%s: u8 = %d;\n' % (v, i) for i, v in enumerate(VOCAB))
+
+
 def make_shim(g, point):
     params = grammar_params(g)
     lines = ['// GENERATED by /verif/lib/gen.py from %s -- do not edit' % os.path.basename(g.path),
@@ -109,12 +127,14 @@ def make_shim(g, point):
     for p in g.prods:
         lines.append('use super::__action%d as %s;' % (p.action, p.name))
     lines.append('')
+    lines.append(vocab_consts())
     sig_params = ', '.join('%s: %s' % (n, strip_lifetimes(t)) for n, t in params if n != 'input')
     leaves = leaf_expansions(g)
     for nt, alts in sorted(leaves.items()):
         ret = strip_lifetimes(g.sigs[g.by_lhs[nt][0].action][1])
         lines.append('pub const NT_%s_N: u8 = %d;' % (nt, len(alts)))
         lines.append('pub const NT_%s_TEXT: [&str; %d] = [%s];' % (nt, len(alts), ', '.join(json.dumps(t) for _, t in alts)))
+        lines.append('pub const NT_%s_ID: [u8; %d] = [%s];' % (nt, len(alts), ', '.join(str(VOCAB.index(t.lower())) if t.lower() in VOCAB else '255' for _, t in alts)))
         lines.append('pub fn nt_%s(sel: u8, %s) -> %s {' % (nt, sig_params, ret))
         lines.append('    let input = "";')
         lines.append('    match sel {')
@@ -202,8 +222,11 @@ def attach(tree, kf_active):
         else:
             body.append('#![allow(dead_code, unused_imports, unused_variables)]\nuse super::*;\n'
                         + ('use crate::verif_rt::*;\n' if crate == 'lib' else 'use emulator_8086_lib::verif_rt::*;\n'))
+        common = point + '_aa_common'
+        has_common = any(st == common for st, _ in by_point.get(point, []))
         for stem, f in by_point.get(point, []):
-            body.append('pub mod %s {\n    #![allow(dead_code, unused_imports, unused_variables, unused_mut)]\n    use super::*;\n    include!(%s);\n}\n' % (stem, json.dumps(f)))
+            extra = '    use super::%s::*;\n' % common if has_common and stem != common else ''
+            body.append('pub mod %s {\n    #![allow(dead_code, unused_imports, unused_variables, unused_mut, non_upper_case_globals)]\n    use super::*;\n%s    include!(%s);\n}\n' % (stem, extra, json.dumps(f)))
             table_entries.append((crate, '%s::%s::TABLE' % (modpath, stem)))
             info['harness_files'][stem] = table_names(f)
         modfile = os.path.join(os.path.dirname(target), modname + '.rs')
